@@ -240,6 +240,27 @@ def _rules_entries(w: World):
         E["social_welfare_comparison"] = lambda: (R.social_welfare_comparison, dict(instance=w.inst, profile=w.prof, sat_class=w.sc, rule_sequence=w.rule_sequence(), rule_params=w.rule_params_list(), initial_budget_allocation=w.init))
         E["popularity_comparison"] = lambda: (R.popularity_comparison, dict(instance=w.inst, profile=w.prof, sat_class=w.sc, rule_sequence=w.rule_sequence(), rule_params=w.rule_params_list(), initial_budget_allocation=w.init))
     E["BudgetAllocation"] = lambda: (R.BudgetAllocation, dict(init=w.alloc))
+    # the two inner schemes of the greedy rule are exported by pabutools.rules.greedywelfare (`__all__`); they take the caller's
+    # BudgetAllocation as it is.  Half of the calls start from an allocation nothing can be added to, in a random order (round 7,
+    # C20-r7B: the irresolute leaf sorted the caller's object once the scheme's own copy was dropped)
+    import pabutools.rules.greedywelfare as GW
+
+    def scheme_alloc():
+        names = [n for n, _ in w.case.projects]
+        rng.shuffle(names)
+        if rng.random() < 0.5:
+            chosen, tot = [], F(0)
+            for n in names:
+                if tot + w.case.cost[n] <= w.case.budget:
+                    chosen.append(n)
+                    tot += w.case.cost[n]
+            return R.BudgetAllocation([w.projs[n] for n in chosen])
+        return R.BudgetAllocation(list(w.init))
+
+    E["greedy_utilitarian_scheme"] = lambda: (GW.greedy_utilitarian_scheme, dict(instance=w.inst, profile=w.prof, sat_profile=w.prof.as_sat_profile(w.sc),
+                                                                                budget_allocation=scheme_alloc(), tie_breaking=w.tie, resoluteness=res()))
+    E["greedy_utilitarian_scheme_additive"] = lambda: (GW.greedy_utilitarian_scheme_additive, dict(instance=w.inst, profile=w.prof, sat_profile=w.prof.as_sat_profile(w.sc),
+                                                                                                  budget_allocation=scheme_alloc(), tie_breaking=w.tie, resoluteness=res()))
     return E
 
 
